@@ -59,4 +59,71 @@ theorem mem_ksSet {m : KSync} {i : Int} {v : Option Int} {x : Int × Option Int}
     · exact Or.inr h
     · exact Or.inl h
 
+/-- `lastIdx` returns the position of the last element satisfying `p` (counting from `i`). -/
+theorem lastIdx_spec {α : Type} (p : α → Bool) (l : List α) (i : Nat) (acc : Option Nat) (k : Nat)
+    (h : lastIdx p l i acc = some k) :
+    (acc = some k ∧ ∀ x ∈ l, p x = false) ∨
+    (i ≤ k ∧ ∃ x, l[k - i]? = some x ∧ p x = true ∧ ∀ j, k - i < j → ∀ y, l[j]? = some y → p y = false) := by
+  induction l generalizing i acc with
+  | nil =>
+    simp only [lastIdx] at h
+    exact Or.inl ⟨h, by intro x hx; cases hx⟩
+  | cons a as ih =>
+    simp only [lastIdx] at h
+    rcases ih (i + 1) _ h with ⟨hacc, hall⟩ | ⟨hik, x, hx, hpx, hlast⟩
+    · by_cases hpa : p a = true
+      · simp only [hpa, if_true, Option.some.injEq] at hacc
+        right
+        refine ⟨by omega, a, ?_, hpa, ?_⟩
+        · subst hacc; simp
+        · intro j hj y hy
+          subst hacc
+          have : j = (j - 1) + 1 := by omega
+          rw [this, List.getElem?_cons_succ] at hy
+          exact hall y (List.mem_of_getElem? hy)
+      · have hpa' : p a = false := by simpa using hpa
+        simp only [hpa', Bool.false_eq_true, if_false] at hacc
+        left
+        exact ⟨hacc, by intro y hy; rcases List.mem_cons.mp hy with rfl | hy; exact hpa'; exact hall y hy⟩
+    · right
+      refine ⟨by omega, x, ?_, hpx, ?_⟩
+      · have : k - i = (k - (i + 1)) + 1 := by omega
+        rw [this, List.getElem?_cons_succ]; exact hx
+      · intro j hj y hy
+        have hj1 : j = (j - 1) + 1 := by omega
+        rw [hj1, List.getElem?_cons_succ] at hy
+        exact hlast (j - 1) (by omega) y hy
+
+
+theorem lastIdx_none {α : Type} (p : α → Bool) (l : List α) (i : Nat)
+    (h : lastIdx p l i none = none) : ∀ x ∈ l, p x = false := by
+  induction l generalizing i with
+  | nil => intro x hx; cases hx
+  | cons a as ih =>
+    simp only [lastIdx] at h
+    by_cases hpa : p a = true
+    · simp only [hpa, if_true] at h
+      rcases hk : lastIdx p as (i + 1) (some i) with _ | k
+      · -- an accumulator that is `some` can never become `none`
+        exfalso
+        have : ∀ (l : List α) (j : Nat) (a : Nat), lastIdx p l j (some a) ≠ none := by
+          intro l
+          induction l with
+          | nil => intro j a h; simp [lastIdx] at h
+          | cons b bs ihb =>
+            intro j a h
+            simp only [lastIdx] at h
+            split at h
+            · exact ihb _ _ h
+            · exact ihb _ _ h
+        exact this as (i + 1) i hk
+      · rw [hk] at h; cases h
+    · have hpa' : p a = false := by simpa using hpa
+      simp only [hpa', Bool.false_eq_true, if_false] at h
+      intro y hy
+      rcases List.mem_cons.mp hy with rfl | hy
+      · exact hpa'
+      · exact ih (i + 1) h y hy
+
+
 end Hta.C08
